@@ -73,3 +73,63 @@ Proof.
   destruct (union_set (match f_services f with Some l => l | None => [] end) env) eqn:Eu; cbn in *; [discriminate|].
   split; [reflexivity|]. repeat split; cbn; tauto.
 Qed.
+
+(* ---------- whole histories ---------- *)
+Definition poll_ok_file (f : file) : bool := match f_poll f with Some false => false | _ => true end.
+Definition accepts (env : list string) (f : file) : bool :=
+  f_loadable f && match union_set (match f_services f with Some l => l | None => [] end) env with [] => false | _ => true end.
+Definition run (env : list string) (st : cstate) (fs : list file) : cstate := fold_left (reload true true env) fs st.
+Definition last_accepted (env : list string) (fs : list file) : option file := find (accepts env) (rev fs).
+
+Lemma same_effect_refl a : same_effect a a.
+Proof. repeat split; intros; tauto. Qed.
+Lemma same_effect_trans a b c : same_effect a b -> same_effect b c -> same_effect a c.
+Proof.
+  intros [H1 [H2 H3]] [H4 [H5 H6]]. repeat split; try congruence.
+  - intros Hx. apply H4, H1, Hx.
+  - intros Hx. apply H1, H4, Hx.
+Qed.
+
+(* under the guard (no edit writes an invalid poll interval), whether an edit is accepted depends on the file and the
+   environment only, never on the state the history left; and the in-memory interval stays parseable *)
+Lemma load_verdict env st f : cs_poll_ok st = true -> poll_ok_file f = true ->
+  snd (load true true env st f) = accepts env f /\ cs_poll_ok (fst (load true true env st f)) = true.
+Proof.
+  intros Hp Hf. unfold load, accepts, poll_ok_file in *.
+  assert (Hpoll : match f_poll f with Some b => b | None => cs_poll_ok st end = true).
+  { destruct (f_poll f) as [[|]|]; [reflexivity|discriminate|exact Hp]. }
+  rewrite Hpoll. destruct (f_loadable f); cbn [negb orb andb fst snd cs_poll_ok]; [|split; reflexivity].
+  destruct (union_set (match f_services f with Some l => l | None => [] end) env); cbn [fst snd cs_poll_ok]; split; auto.
+Qed.
+Lemma reload_poll_ok env st f : cs_poll_ok st = true -> poll_ok_file f = true -> cs_poll_ok (reload true true env st f) = true.
+Proof.
+  intros Hp Hf. destruct (load_verdict env st f Hp Hf) as [_ Hk]. unfold reload.
+  destruct (load true true env st f) as [st' ok]. cbn [fst] in Hk. destruct ok; cbn [cs_poll_ok]; exact Hk.
+Qed.
+
+(* After ANY history of edits none of which writes an invalid poll interval (guard of KF-stale-config-scalar), what the
+   running gateway has in effect is what a fresh start computes from the LAST edit that could be loaded - whatever came
+   before or after it, refused edits included - and the start configuration when none could. *)
+Theorem history_equals_restart env : forall fs st,
+  cs_poll_ok st = true -> forallb poll_ok_file fs = true ->
+  cs_poll_ok (run env st fs) = true /\
+  match last_accepted env fs with
+  | Some f => exists fr, fresh true true env f = Some fr /\ same_effect (run env st fs) fr
+  | None => same_effect (run env st fs) st
+  end.
+Proof.
+  induction fs as [|f fs IH] using rev_ind; intros st Hp Hall.
+  - cbn. split; [exact Hp|apply same_effect_refl].
+  - rewrite forallb_app in Hall. apply andb_prop in Hall. destruct Hall as [Hfs Hf]. cbn in Hf. rewrite andb_true_r in Hf.
+    destruct (IH st Hp Hfs) as [Hk IHe]. unfold run in *. rewrite fold_left_app. cbn [fold_left].
+    set (s := fold_left (reload true true env) fs st) in *.
+    split; [apply reload_poll_ok; assumption|].
+    unfold last_accepted in *. rewrite rev_unit. cbn [find].
+    destruct (load_verdict env s f Hk Hf) as [Hv _].
+    destruct (accepts env f) eqn:Ea.
+    + destruct (reload_equals_restart env s f (or_introl Hk) Hv) as [fr [Hfr [He _]]]. exists fr. split; assumption.
+    + pose proof (failed_edit_keeps_config true true env s f Hv) as Hkeep.
+      destruct (find (accepts env) (rev fs)) as [g|].
+      * destruct IHe as [fr [Hfr He]]. exists fr. split; [assumption|eapply same_effect_trans; eassumption].
+      * eapply same_effect_trans; eassumption.
+Qed.
